@@ -504,7 +504,7 @@ func c13R4(c *Ctx) {
 	// the send is after the loop
 	var send ssa.Instruction
 	for _, op := range c.chanOps(fn) {
-		if op.Kind == "send" && op.Ch.Field != nil && op.Ch.Field.Name() == "executeInput" {
+		if op.Kind == "send" && op.Ch.Field != nil && fieldName(op.Ch.Field) == "executeInput" {
 			send = op.In
 		}
 	}
